@@ -22,7 +22,18 @@ def main():
         raise Machinery('darr imported from %s, not %s' % (darr.__file__, root))
     mod = importlib.import_module('harness.checks.%s' % a.prop.lower())
     if a.replay:
-        return mod.replay(a.replay)
+        # a replay file names the signature of a violation, the tier and the seed of the run that found it; the
+        # checks are deterministic in (tree, tier, seed): the run is repeated and the signature looked for
+        import json
+        from . import common
+        rep = json.load(open(a.replay))
+        os.environ['VERIF_REPLAYING'] = '1'
+        mod.run(rep.get('tier', a.tier), int(rep.get('seed', a.seed)))
+        if rep.get('signature') in common.LAST['signatures']:
+            print('REPLAY: reproduced %s' % rep['signature'])
+            return 1
+        print('REPLAY: not reproduced on this tree: %s' % rep.get('signature'))
+        return 0
     return mod.run(a.tier, a.seed)
 
 
